@@ -39,7 +39,7 @@ RULE = (
     "(history, slot) logs; non-trivial = every run (>= 10 configurations each)"
 )
 LEVEL_TEXT = (
-    "The same seeded histories run in K interpreters with different PYTHONHASHSEED plus fresh interpreters; hashes, file names and serialised text must agree entry by entry across processes, and inside each process every configuration must round-trip field by field, equal-content configurations must hash equal, and single-field variants must hash differently. Sampling over configurations, not proof. Inside each history live configurations are mutated in place (container fields and assignments) and must keep the identity of a freshly built equal configuration; variants cover retyped and None-valued arguments, seeds over the whole 32-bit range, recorded filters added / removed / reordered; the serialised form of an equal donor configuration is edited everywhere and must not reach the live or a later-built configuration; one interpreter slot in three and half of the fresh twins run under python -O.",
+    "The same seeded histories run in K interpreters with different PYTHONHASHSEED plus fresh interpreters; hashes, file names and serialised text must agree entry by entry across processes, and inside each process every configuration must round-trip field by field, equal-content configurations must hash equal, and single-field variants must hash differently. Sampling over configurations, not proof. Inside each history live configurations are mutated in place (container fields and assignments) and must keep the identity of a freshly built equal configuration; variants cover retyped and None-valued arguments, seeds over the whole 32-bit range, recorded filters added / removed / reordered; collection configurations whose members differ in seed but coincide in their abbreviated identity (birthday sweep) must hash differently; the serialised form of an equal donor configuration is edited everywhere and must not reach the live or a later-built configuration; one interpreter slot in three and half of the fresh twins run under python -O.",
     "Trusted: muutils.misc.sanitize_fname / shorten_numerical_to_str (third party) for the file-name model; json.",
 )
 
@@ -378,6 +378,41 @@ def st_history(spec):
         except Exception as e:  # noqa: BLE001 - constructing / serialising / loading / hashing / comparing a valid configuration must not raise
             viols.append(["C18.operation-raised", f"config #{i}: {type(e).__name__}: {str(e)[:300]}", None])
             events.append(["violation", i, "C18.operation-raised", type(e).__name__])
+    # identity of a composite: a collection configuration must tell apart members that differ in a hashed field even when
+    # the members' *abbreviated* identities (file name = name, size, count, generator, five hash digits) coincide - the
+    # adversarial pair for anything keyed on the abbreviation; found by a birthday sweep over seeds
+    if spec.get("collection_sweep", spec.get("seed", 0) % 3 == 0):
+        try:
+            base = {"name": "sweep", "grid_n": 4, "n_mazes": 8, "maze_ctor": "gen_dfs", "maze_ctor_kwargs": {}, "endpoint_kwargs": {}, "applied_filters": []}
+            s0 = spec.get("seed", 0) % 100000
+            seen: dict = {}
+            pair = None
+            for s in range(s0, s0 + 2500):
+                c = make_cfg(dict(base, seed=s))
+                fn = c.to_fname()
+                if fn in seen:
+                    pair = (seen[fn], c)
+                    break
+                seen[fn] = c
+            if pair is None:
+                events.append(["collection-colliding-members", None])
+            else:
+                a, b = pair
+                other = make_cfg(dict(base, name="other", seed=1))
+                ca = MazeDatasetCollectionConfig(name="coll", maze_dataset_configs=[other, a])
+                cb = MazeDatasetCollectionConfig(name="coll", maze_dataset_configs=[other, b])
+                ta, tb = json.dumps(ca.serialize()), json.dumps(cb.serialize())
+                ha, hb = ca.stable_hash_cfg(), cb.stable_hash_cfg()
+                events.append(["collection-colliding-members", a.seed, b.seed, str(ha), str(hb)])
+                if a.stable_hash_cfg() == b.stable_hash_cfg():
+                    viols.append(["C18.hash-discriminates", f"configurations differing only in seed ({a.seed} vs {b.seed}) have the same full hash", None])
+                elif ta != tb and ha == hb:
+                    viols.append(["C18.hash-discriminates", f"two collection configurations that differ in one member's seed ({a.seed} vs {b.seed}; the two members' file names coincide, their hashes do not) have the same hash {ha}", None])
+                lca = MazeDatasetCollectionConfig.load(json.loads(ta))
+                if json.dumps(lca.serialize()) != ta or lca.stable_hash_cfg() != ha:
+                    viols.append(["C18.roundtrip-equal", "collection configuration with two members does not round-trip through JSON text", None])
+        except Exception as e:  # noqa: BLE001
+            viols.append(["C18.operation-raised", f"collection sweep: {type(e).__name__}: {str(e)[:200]}", None])
     # a collection config of the first few live configs round-trips too
     try:
         members = [live[i] for i in sorted(live)[:3]]
